@@ -336,6 +336,28 @@ def compare_stats_threads(run, tmp):
                         run.fail(dict(i=10**6 + 200 + th, op='stats', threads=th), f'stats differ between 1 and {th} threads: {a} vs {b}',
                                  signature=dict(kind='stats-threads'))
 
+        # compare on an image of more than a megabyte per band, processing grid forced to the finer image (there the statistics DO
+        # depend on the partition - finding D7 - so that a partition that varies with the thread count shows in the result):
+        # the partition is a matter of max_block_mem alone, the statistics are the same for 1, 2 and 4 threads
+        import rasters
+        gs = rasters.Grid(8 * 4000, 8 * 9000, 4, 4, 640, 560)
+        gr = rasters.Grid(8 * 4000 - 96, 8 * 9000 + 96, 48, 48, 58, 52)
+        brng = run.rng('cmp-big')
+        rr = np.array([[[brng.randint(30, 150) for _ in range(gr.w)] for _ in range(gr.h)]], float)
+        ss = np.kron(rr[0][2:-2, 2:-2], np.ones((12, 12)))[None, :gs.h, :gs.w] + np.array(
+            [[[brng.randint(-9, 9) for _ in range(gs.w)] for _ in range(gs.h)]], float)
+        bpair = fusion.write_pair(tmp, 'c04big', gs, gr, ss, rr, None, None)
+        big = {}
+        for th in (1, 2, 4):
+            with RasterCompare(bpair.src_path, bpair.ref_path, proc_crs='src') as cmp:
+                big[th] = cmp.process(threads=th, max_block_mem=64)
+            run.evaluations += 1
+            run.hist['compare on a > 1 MB band, threads 1/2/4'] += 1
+        for th in (2, 4):
+            for (k0, v0), (k1, v1) in zip(big[1].items(), big[th].items()):
+                if v0['n'] != v1['n'] or not (abs(v0['r2'] - v1['r2']) <= 1e-6) or not (abs(v0['rmse'] - v1['rmse']) <= 1e-6 * max(1, v0['rmse'])):
+                    run.fail(dict(i=10**6 + 400 + th, op='compare', threads=th, image='640 x 560, proc_crs=src'),
+                             f'compare statistics differ between 1 and {th} threads: {v0} vs {v1}', signature=dict(kind='compare-threads', big=True))
         # stats: the open parameter dataset is shared by the workers - every access to it must be mutually exclusive (GDAL dataset
         # handles are not thread safe).  A pass-through proxy counts the threads inside an access (and lingers there for a
         # millisecond, so that an unprotected access by two workers overlaps)
